@@ -52,6 +52,9 @@ Model/Chain.vos Model/Chain.vok Model/Chain.required_vos: Model/Chain.v Base/Pre
 Model/ConfigSpec.vo Model/ConfigSpec.glob Model/ConfigSpec.v.beautified Model/ConfigSpec.required_vo: Model/ConfigSpec.v Gen/ConfigGen.vo
 Model/ConfigSpec.vio: Model/ConfigSpec.v Gen/ConfigGen.vio
 Model/ConfigSpec.vos Model/ConfigSpec.vok Model/ConfigSpec.required_vos: Model/ConfigSpec.v Gen/ConfigGen.vos
+Model/WSPool.vo Model/WSPool.glob Model/WSPool.v.beautified Model/WSPool.required_vo: Model/WSPool.v Base/Prelude.vo
+Model/WSPool.vio: Model/WSPool.v Base/Prelude.vio
+Model/WSPool.vos Model/WSPool.vok Model/WSPool.required_vos: Model/WSPool.v Base/Prelude.vos
 Proofs/LimiterProofs.vo Proofs/LimiterProofs.glob Proofs/LimiterProofs.v.beautified Proofs/LimiterProofs.required_vo: Proofs/LimiterProofs.v Base/Prelude.vo Model/Limiter.vo
 Proofs/LimiterProofs.vio: Proofs/LimiterProofs.v Base/Prelude.vio Model/Limiter.vio
 Proofs/LimiterProofs.vos Proofs/LimiterProofs.vok Proofs/LimiterProofs.required_vos: Proofs/LimiterProofs.v Base/Prelude.vos Model/Limiter.vos
@@ -82,6 +85,9 @@ Proofs/ChainProofs.vos Proofs/ChainProofs.vok Proofs/ChainProofs.required_vos: P
 Proofs/ConfigProofs.vo Proofs/ConfigProofs.glob Proofs/ConfigProofs.v.beautified Proofs/ConfigProofs.required_vo: Proofs/ConfigProofs.v Gen/ConfigGen.vo Model/ConfigSpec.vo
 Proofs/ConfigProofs.vio: Proofs/ConfigProofs.v Gen/ConfigGen.vio Model/ConfigSpec.vio
 Proofs/ConfigProofs.vos Proofs/ConfigProofs.vok Proofs/ConfigProofs.required_vos: Proofs/ConfigProofs.v Gen/ConfigGen.vos Model/ConfigSpec.vos
+Proofs/WSPoolProofs.vo Proofs/WSPoolProofs.glob Proofs/WSPoolProofs.v.beautified Proofs/WSPoolProofs.required_vo: Proofs/WSPoolProofs.v Base/Prelude.vo Model/WSPool.vo
+Proofs/WSPoolProofs.vio: Proofs/WSPoolProofs.v Base/Prelude.vio Model/WSPool.vio
+Proofs/WSPoolProofs.vos Proofs/WSPoolProofs.vok Proofs/WSPoolProofs.required_vos: Proofs/WSPoolProofs.v Base/Prelude.vos Model/WSPool.vos
 Cases/LimiterCase.vo Cases/LimiterCase.glob Cases/LimiterCase.v.beautified Cases/LimiterCase.required_vo: Cases/LimiterCase.v Base/Prelude.vo Model/Limiter.vo
 Cases/LimiterCase.vio: Cases/LimiterCase.v Base/Prelude.vio Model/Limiter.vio
 Cases/LimiterCase.vos Cases/LimiterCase.vok Cases/LimiterCase.required_vos: Cases/LimiterCase.v Base/Prelude.vos Model/Limiter.vos
@@ -109,6 +115,9 @@ Cases/ChainCase.vos Cases/ChainCase.vok Cases/ChainCase.required_vos: Cases/Chai
 Cases/ConfigCase.vo Cases/ConfigCase.glob Cases/ConfigCase.v.beautified Cases/ConfigCase.required_vo: Cases/ConfigCase.v Base/Prelude.vo Base/Bytes.vo Gen/ConfigGen.vo Model/ConfigSpec.vo Model/Chain.vo
 Cases/ConfigCase.vio: Cases/ConfigCase.v Base/Prelude.vio Base/Bytes.vio Gen/ConfigGen.vio Model/ConfigSpec.vio Model/Chain.vio
 Cases/ConfigCase.vos Cases/ConfigCase.vok Cases/ConfigCase.required_vos: Cases/ConfigCase.v Base/Prelude.vos Base/Bytes.vos Gen/ConfigGen.vos Model/ConfigSpec.vos Model/Chain.vos
+Cases/WSPoolCase.vo Cases/WSPoolCase.glob Cases/WSPoolCase.v.beautified Cases/WSPoolCase.required_vo: Cases/WSPoolCase.v Base/Prelude.vo Model/WSPool.vo
+Cases/WSPoolCase.vio: Cases/WSPoolCase.v Base/Prelude.vio Model/WSPool.vio
+Cases/WSPoolCase.vos Cases/WSPoolCase.vok Cases/WSPoolCase.required_vos: Cases/WSPoolCase.v Base/Prelude.vos Model/WSPool.vos
 Props/C09.vo Props/C09.glob Props/C09.v.beautified Props/C09.required_vo: Props/C09.v Base/Prelude.vo Model/Limiter.vo Proofs/LimiterProofs.vo
 Props/C09.vio: Props/C09.v Base/Prelude.vio Model/Limiter.vio Proofs/LimiterProofs.vio
 Props/C09.vos Props/C09.vok Props/C09.required_vos: Props/C09.v Base/Prelude.vos Model/Limiter.vos Proofs/LimiterProofs.vos
@@ -160,3 +169,6 @@ Props/C17.vos Props/C17.vok Props/C17.required_vos: Props/C17.v Base/Prelude.vos
 Props/C18.vo Props/C18.glob Props/C18.v.beautified Props/C18.required_vo: Props/C18.v Gen/ConfigGen.vo Model/ConfigSpec.vo Proofs/ConfigProofs.vo Base/Bytes.vo Model/Chain.vo
 Props/C18.vio: Props/C18.v Gen/ConfigGen.vio Model/ConfigSpec.vio Proofs/ConfigProofs.vio Base/Bytes.vio Model/Chain.vio
 Props/C18.vos Props/C18.vok Props/C18.required_vos: Props/C18.v Gen/ConfigGen.vos Model/ConfigSpec.vos Proofs/ConfigProofs.vos Base/Bytes.vos Model/Chain.vos
+Props/C20.vo Props/C20.glob Props/C20.v.beautified Props/C20.required_vo: Props/C20.v Base/Prelude.vo Model/WSPool.vo Proofs/WSPoolProofs.vo Proofs/ProxyProofs.vo Gen/Wrappers.vo
+Props/C20.vio: Props/C20.v Base/Prelude.vio Model/WSPool.vio Proofs/WSPoolProofs.vio Proofs/ProxyProofs.vio Gen/Wrappers.vio
+Props/C20.vos Props/C20.vok Props/C20.required_vos: Props/C20.v Base/Prelude.vos Model/WSPool.vos Proofs/WSPoolProofs.vos Proofs/ProxyProofs.vos Gen/Wrappers.vos
